@@ -417,6 +417,17 @@ func c20String(enc ipmi.StringEncoding, c, pos int, code, fill byte) string {
 	if got != string(want) || consumed != consumedWant {
 		return fmt.Sprintf("encoding %d: decode(% x, %d) = (%q, %d), want (%q, %d)", enc, data, c, got, consumed, string(want), consumedWant)
 	}
+	// a string is a value: it stays what it was when the bytes it was decoded
+	// from are overwritten (the library decodes out of a reused receive buffer)
+	for i := range data {
+		data[i] = ^data[i]
+	}
+	if got != string(want) {
+		return fmt.Sprintf("encoding %d: the %d-character string decoded as %q reads %q after the input buffer was overwritten", enc, c, string(want), got)
+	}
+	for i := range data {
+		data[i] = ^data[i]
+	}
 	// the same string as the ID string of a Full Sensor Record (the route by
 	// which the library itself decodes ID strings)
 	if c == 1 && (enc == ipmi.StringEncoding8BitAsciiLatin1 || enc == ipmi.StringEncodingUnicode) {
@@ -429,6 +440,12 @@ func c20String(enc ipmi.StringEncoding, c, pos int, code, fill byte) string {
 	}
 	if fsr.Identity != string(want) {
 		return fmt.Sprintf("encoding %d: a Full Sensor Record with the %d-character ID string % x has Identity %q, want %q", enc, c, data[:consumedWant], fsr.Identity, string(want))
+	}
+	for i := range body {
+		body[i] = ^body[i]
+	}
+	if fsr.Identity != string(want) {
+		return fmt.Sprintf("encoding %d: the Identity %q of a Full Sensor Record reads %q after the buffer it was decoded from was overwritten", enc, string(want), fsr.Identity)
 	}
 	return ""
 }
